@@ -265,6 +265,25 @@ def gen_combinatorial(rnd, types=None, n_nodes=None, max_elems=12, id_style=None
             'blocks': blocks, 'n_unref': n_nodes - len({n for b in blocks.values() for _, c in b for n in c})}
 
 
+def insertion_order(el):
+    """the same {type: attribute} dict with its INSERTION order permuted (deterministically from the content).  femio's
+    FEMElementalAttribute overrides keys() / values() / items() to the canonical ELEMENT_TYPES order but not __iter__, and
+    its own readers fill the dict in deck / alphabetical order: insertion order is a dimension of "arbitrary storage
+    order" that must not be observable (seeded change C06-6 was missed because every generator inserted canonically)."""
+    ts = list(el)
+    if len(ts) < 2:
+        return el
+    try:
+        s = int(sum(int(x) for t in ts for x in list(getattr(el[t], 'ids', []))[:3]))
+    except Exception:
+        s = len(ts)
+    k = s % len(ts)
+    ts = ts[k:] + ts[:k]
+    if (s // 7) % 2:
+        ts.reverse()
+    return {t: el[t] for t in ts}
+
+
 def to_femio(m, float_coords=True):
     import numpy as np
     from femio import FEMData, FEMAttribute, FEMElementalAttribute
@@ -272,7 +291,7 @@ def to_femio(m, float_coords=True):
                          data=np.array([[float(v) for v in p] for _, p in m['nodes']]), silent=True)
     el = {t: FEMAttribute(t, ids=np.array([e for e, _ in b]), data=np.array([c for _, c in b]), silent=True)
           for t, b in m['blocks'].items()}
-    return quiet(lambda: FEMData(nodes=nodes, elements=FEMElementalAttribute('ELEMENT', el)))
+    return quiet(lambda: FEMData(nodes=nodes, elements=FEMElementalAttribute('ELEMENT', insertion_order(el))))
 
 
 def enc_mesh(m):
